@@ -1,6 +1,6 @@
 (* C09 — subsets and cross-sections are faithful restrictions. Statements only. *)
 From Coq Require Import Sorting.Sorted Permutation.
-From Verif Require Import Base C09 C09_proofs.
+From Verif Require Import Base C02 C09 C09_proofs C09_commute_proofs.
 
 (* face k of the subset is source face idx[k]: reading its row back through the recorded node
    indices gives the source row (same corners, same cyclic order and start, same padding) *)
@@ -53,3 +53,13 @@ Theorem C09_data : forall (A : Type) (d : A) data idx k i,
   nth_error idx k = Some i -> nth_error (c09_gather d data idx) k = Some (nth (Z.to_nat i) data d).
 Proof. exact @gather_spec. Qed.
 Print Assumptions C09_data.
+
+(* derived connectivity commutes with slicing: the edge table derived ON the subset equals the edge
+   table derived on the selected source rows, renumbered through the recorded node indices — the same
+   segments in the same order (so edge-centred data sliced with the recorded edge indices stay aligned) *)
+Theorem C09_commute_edges : forall t idx,
+  Forall (Forall (fun x => x = FILL \/ 0 <= x)) (c09_rows t idx) ->
+  edges (fst (c09_slice_faces t idx))
+  = map (pmap (c09_renumber (snd (c09_slice_faces t idx)))) (edges (c09_rows t idx)).
+Proof. exact slice_edges_commute. Qed.
+Print Assumptions C09_commute_edges.
